@@ -167,8 +167,13 @@ func (s *SparseStore) Reweight(w float64) error {
 	if w == 1 {
 		return nil
 	}
-	for index := range s.counts {
-		s.counts[index] *= w
+	for index, count := range s.counts {
+		if count*w == 0 {
+			// The count has underflowed to zero: the bin is now empty.
+			delete(s.counts, index)
+		} else {
+			s.counts[index] = count * w
+		}
 	}
 	return nil
 }
